@@ -186,7 +186,8 @@ Proof.
   destruct (shp (xb C)) eqn:SH; destruct v.
   - (* PG, V_IN *)
     apply (erase_entry_record C (xb C) s1 X1 _ tr sv a o (idx s1) PG H1).
-  - exact H1.
+  - destruct (state_trig tr); [|exact H1].
+    rewrite xout_push. unfold entry_record. destruct sv as [[[d m] t'] z]. cbn [f_flags norecord orb out]. exact H1.
   - exact H1.
   - apply (erase_entry_record C (xb C) s1 X1 _ tr sv a o (idx s1) CYG H1).
   - apply (erase_entry_record C (xb C) s1 X1 _ tr sv a o (idx s1) CYG H1).
